@@ -811,6 +811,24 @@ def iter_elem(prog, owner, it, depth=0):
     return None
 
 
+def loop_elem(prog, owner, e):
+    """the induction variable of a `for` loop over an iterator chain (`for o in (0..h).flat_map(..).map(|p| shape.offset(p))`), spelled as
+    the element term of the chain (iter_elem) so that it reads like the variable of the equivalent nested range loops; other terms
+    (and plain range loops, which already are in that spelling) are returned unchanged"""
+    m = re.match(r"^(.*)@Some\.0$", e.strip())
+    tc = split_call(m.group(1)) if m else None
+    if tc is None or not re.search(r"(^|::)next$", tc[0]) or len(tc[1]) != 1:
+        return e
+    src = tc[1][0]
+    ti = split_call(src)
+    if ti is not None and ti[0] == "IntoIterator::into_iter" and len(ti[1]) == 1:
+        src = ti[1][0]
+    if re.match(r"^Range\{", src):
+        return e
+    el = iter_elem(prog, owner, src)
+    return el if el is not None else e
+
+
 def sub_terms(e, mp):
     """simultaneous substitution of whole sub-terms (longest keys first, word-bounded)"""
     if not mp:
@@ -1111,16 +1129,21 @@ def run(ctx):
             idx_e = None
             if t["k"] == "assert" and t["msg"]["kind"] == "BoundsCheck":
                 idx_e = expr(b, t["msg"]["index"])
-            if idx_e is None or "Shape::offset" not in idx_e:
+            if idx_e is None:
                 continue
             if b.kind == "Closure":
                 # a closure driven by an iterator chain (`(0..h).flat_map(|r| (0..w).map(move |c| Position::new(r, c))).for_each(|pos| ..)`) is the
-                # same loop: the element term of the chain is substituted for the closure's parameter; closures handed to new_with get
+                # same loop: the element term of the chain is substituted for the closure's parameter (the offset itself may have been
+                # computed by an earlier stage: `.map(|p| shape.offset(p)).for_each(|o| data[o] = ..)`); closures handed to new_with get
                 # their position from new_with(shape.size(), ..) (checked below)
                 cons = closure_consumer(prog, b)
                 if cons is None or not call_matches(cons[2], ITER_CONSUMERS):
                     continue
                 idx_e = sub_terms(idx_e, closure_context(prog, b))
+            else:
+                idx_e = loop_elem(prog, b.path, idx_e)
+            if "Shape::offset" not in idx_e:
+                continue
             if b.path == "surface::SurfaceMut::set":
                 continue   # caller-supplied position: covered by the guard rule U2
             n_loops += 1
@@ -1221,7 +1244,16 @@ def run(ctx):
         if ie.startswith("Shape::offset("):
             return [ie]
         ts = PathEval(b).terms(bb, operand)
-        return sorted(ts) if ts else [ie]
+        ts = sorted(ts) if ts else [ie]
+        if b.kind == "Closure":
+            # the index may be (or contain) the closure's element parameter / a capture: an offset computed by an earlier stage of the
+            # iterator chain (`.map(|p| shape.offset(p)).for_each(|o| data[o] = v)`) or hoisted into a captured local is the same
+            # offset; the parameter is replaced by the element term of the chain, captures by what was captured
+            cm = _upvars(b)
+            ts = sorted({canon_arith(sub_terms(x, cm)) for x in ts})
+        else:
+            ts = sorted({canon_arith(loop_elem(prog, b.path, x)) for x in ts})    # `for offset in <chain of offsets>`
+        return ts
     for b in prog.bodies:
         in_surface = b.file.endswith("surface.rs")
         if in_surface and b.kind != "Closure":
@@ -1265,7 +1297,7 @@ def run(ctx):
                     re0 = expr(b, t["args"][0])
                     own_field = re.search(r"(^|\()arg1\.data\b", re0) and re.sub(r"<.*$", "", b.impl_self or "") in ("image::Image", "surface::SurfaceOwned")
                     if re.search(r"(Surface::data|SurfaceMut::data_mut|Image::data)\(", re0) or own_field:
-                        ie = expr(b, t["args"][1])
+                        ie = _sub_up(expr(b, t["args"][1]), _upvars(b))
                         ok = ie.startswith("Shape::offset(")
                         ctx.instance("U8-INDEX", {"fn": b.path, "data_access_outside_surface_rs": short, "index": ie[:120], "ok": ok})
                         if not ok:
@@ -1297,7 +1329,7 @@ def run(ctx):
                         le = expr(b, t["msg"]["len"])
                         if not re.search(r"(Surface::data|SurfaceMut::data_mut|Image::data)\(", le):
                             continue
-                        ie = expr(b, t["msg"]["index"])
+                        ie = _sub_up(expr(b, t["msg"]["index"]), _upvars(b))
                         ok = ie.startswith("Shape::offset(")
                         ctx.instance("U8-INDEX", {"fn": b.path, "data_access_outside_surface_rs": "index", "index": ie[:120], "ok": ok})
                         if not ok:
